@@ -5,6 +5,7 @@ import (
 	"encoding/json"
 	"fmt"
 	"math/rand"
+	"sort"
 	"strings"
 	"time"
 
@@ -23,6 +24,7 @@ import (
 	"github.com/openkruise/rollouts/api/v1beta1"
 	"github.com/openkruise/rollouts/pkg/controller/rollout"
 	"github.com/openkruise/rollouts/pkg/util"
+	"github.com/openkruise/rollouts/pkg/util/grace"
 
 	"verifharness/emit"
 )
@@ -430,9 +432,54 @@ func readBR(br *v1beta1.BatchRelease) *RBr {
 }
 
 func (rolloutsmEngine) Run(inAny any) any {
-	in := inAny.(RInput)
+	obs, _ := runRolloutCase(inAny.(RInput), nil)
+	return obs
+}
+
+// TRExt adds traffic routing (an nginx Ingress and the two Services) to a rollout case.
+type TRExt struct {
+	Strategies []TMStrategy `json:"strategies"` // per step
+	Net        TMNet        `json:"net"`
+	ZeroGrace  bool         `json:"zero_grace,omitempty"`
+	Pending    []TRPending  `json:"pending,omitempty"` // in-memory grace expectations at the start of the reconcile
+}
+type TRPending struct {
+	Action  string `json:"action"`
+	Elapsed bool   `json:"elapsed"`
+}
+type TRObsExt struct {
+	Net     TMNet    `json:"net"`
+	Writes  []string `json:"writes"`
+	Pending []string `json:"pending"`
+}
+
+var graceKeys = map[string]string{"updateRoute": "ro-uid", "restoreGateway": "ro-uid", "removeCanaryService": "ns/svc-canary", "patchService": "svc-uid", "restoreService": "svc-uid"}
+
+func runRolloutCase(in RInput, ext *TRExt) (RObs, TRObsExt) {
 	obs := RObs{}
+	xobs := TRObsExt{}
 	rollout.VerifSetGraceSeconds(3)
+	objs, ro, curHash := buildRolloutObjects(in, ext)
+	if ext != nil {
+		grace.ResetExpectations()
+		for _, p := range ext.Pending {
+			if p.Elapsed {
+				grace.DefaultGraceExpectations.Expect(graceKeys[p.Action], grace.Action(p.Action))
+			}
+		}
+		grace.VerifAge(time.Hour)
+		for _, p := range ext.Pending {
+			if !p.Elapsed {
+				grace.DefaultGraceExpectations.Expect(graceKeys[p.Action], grace.Action(p.Action))
+			}
+		}
+	}
+	return reconcileRolloutWorld(in, ext, objs, ro, curHash, obs, xobs)
+}
+
+// buildRolloutObjects turns a case description into API objects: the Rollout, its CloneSet and BatchRelease and, with
+// traffic routing, the Services and Ingresses.
+func buildRolloutObjects(in RInput, ext *TRExt) ([]client.Object, *v1beta1.Rollout, string) {
 	ro := &v1beta1.Rollout{ObjectMeta: metav1.ObjectMeta{Namespace: "ns", Name: "ro", UID: "ro-uid", Generation: int64(in.Generation), Annotations: map[string]string{}}}
 	ro.Spec.WorkloadRef = v1beta1.ObjectRef{APIVersion: "apps.kruise.io/v1alpha1", Kind: "CloneSet", Name: "wl"}
 	ro.Spec.Disabled = in.Disabled
@@ -444,6 +491,18 @@ func (rolloutsmEngine) Run(inAny any) any {
 			cs.Pause.Duration = pointer.Int32(int32(*s.Pause))
 		}
 		canary.Steps = append(canary.Steps, cs)
+	}
+	if ext != nil {
+		for i := range canary.Steps {
+			if i < len(ext.Strategies) {
+				canary.Steps[i].TrafficRoutingStrategy = tmStrategy(ext.Strategies[i])
+			}
+		}
+		g := int32(3)
+		if ext.ZeroGrace {
+			g = 0
+		}
+		canary.TrafficRoutings = []v1beta1.TrafficRoutingRef{{Service: "svc", GracePeriodSeconds: g, Ingress: &v1beta1.IngressTrafficRouting{Name: "web"}}}
 	}
 	if in.FT != nil {
 		canary.FailureThreshold = ptrIOS(in.FT.K8s())
@@ -524,7 +583,16 @@ func (rolloutsmEngine) Run(inAny any) any {
 	if in.BR != nil {
 		objs = append(objs, buildBR(in, in.BR))
 	}
-	cli := fake.NewClientBuilder().WithScheme(FullScheme()).WithObjects(objs...).Build()
+	if ext != nil {
+		objs = append(objs, tmObjectsKey(ext.Net, "pod-template-hash")...)
+	}
+	return objs, ro, curHash
+}
+
+func reconcileRolloutWorld(in RInput, ext *TRExt, objs []client.Object, ro *v1beta1.Rollout, curHash string, obs RObs, xobs TRObsExt) (RObs, TRObsExt) {
+	base := fake.NewClientBuilder().WithScheme(FullScheme()).WithObjects(objs...).Build()
+	wl := &writeLog{Client: base}
+	var cli client.Client = wl
 	// the finder's view of the workload, before the reconcile
 	if wv, err := util.NewControllerFinder(cli).GetWorkloadForRef(ro); err == nil && wv != nil {
 		obs.WlView.Consistent = wv.IsStatusConsistent
@@ -591,7 +659,20 @@ func (rolloutsmEngine) Run(inAny any) any {
 			_, obs.Anno = cs.Annotations[util.InRolloutProgressingAnnotation]
 		}
 	}
-	return obs
+	if ext != nil {
+		xobs.Net = tmProjectKey(base, "pod-template-hash")
+		for _, w := range wl.log {
+			if strings.Contains(w, " Service ") || strings.Contains(w, " Ingress ") {
+				xobs.Writes = append(xobs.Writes, w)
+			}
+		}
+		for _, p := range grace.VerifPending() {
+			xobs.Pending = append(xobs.Pending, p[strings.LastIndex(p, "/")+1:])
+		}
+		sort.Strings(xobs.Pending)
+		grace.ResetExpectations()
+	}
+	return obs, xobs
 }
 
 func coqSState(s string) string {
